@@ -7,7 +7,7 @@
    priority-sorted ANP list (C02_admin_order_irrelevant).  What is only sampled: the real map-iteration
    schedules of the Go runtime in code the mirror abstracts (dot output, exposure tables, Errors() order). *)
 From Coq Require Import List ZArith Bool String Permutation Sorting.Sorted.
-From NP Require Import IntervalSet ConnSet World Build Connlist Diff Format SortGeneric FormatProofs.
+From NP Require Import IntervalSet ConnSet World Eval EvalProofs Build Connlist Diff Format SortGeneric FormatProofs OrderProofs.
 Import ListNotations.
 
 (* sorting strings is a function of the multiset, and any correct sort.Strings computes it *)
@@ -49,3 +49,18 @@ Print Assumptions C08_diff_md_order_independent.
 Theorem C08_diff_csv_order_independent d1 d2 : Permutation d1 d2 -> diff_csv d1 = diff_csv d2.
 Proof. exact (diff_csv_perm_invariant d1 d2). Qed.
 Print Assumptions C08_diff_csv_order_independent.
+
+(* analysis part: the connection set of every pair of peers is the same (identical canonical structure) whatever order the
+   NetworkPolicies are met in - the order Go's map iteration picks in getPoliciesSelectingPod included - ... *)
+Theorem C08_connection_independent_of_policy_order w w' src dst c c' :
+  same_but_policies w w' -> peer_okb dst = true -> world_okb w = true -> world_okb w' = true ->
+  all_conns w src dst = Ok c -> all_conns w' src dst = Ok c' -> c = c'.
+Proof. exact (connection_independent_of_policy_order w w' src dst c c'). Qed.
+Print Assumptions C08_connection_independent_of_policy_order.
+
+(* ... and whatever order the rules of a policy, the peers and ports of a rule and the policyTypes are written in *)
+Theorem C08_connection_independent_of_written_order w w' src dst c c' :
+  world_equiv w w' -> peer_okb dst = true -> world_okb w = true -> world_okb w' = true ->
+  all_conns w src dst = Ok c -> all_conns w' src dst = Ok c' -> c = c'.
+Proof. exact (connection_independent_of_written_order w w' src dst c c'). Qed.
+Print Assumptions C08_connection_independent_of_written_order.
